@@ -7,7 +7,7 @@ from typing import Callable, Dict, List, Optional, Sequence, Set, Tuple
 
 from ..absval import UNKNOWN, Evaluator, walk
 from ..astutil import call_name, calls_in, kwarg, store_targets, unparse, walk_shallow
-from ..cfg import CFG, CNode, Edge, LocalDefs, path_text
+from ..cfg import CFG, CNode, Edge, LocalDefs, expand_test, path_text
 from ..index import AnalysisError, ClassInfo, FuncInfo, Index
 from ..inventory import call_sites, recv_class, stores_to_attr
 from ..report import Ctx
@@ -716,11 +716,13 @@ def r17_7(ctx: Ctx) -> None:
     for fn in ix.functions:
         if isinstance(fn.node, ast.Lambda) or not fn.path.startswith("src/primaite/simulator/"):
             continue
-        tested = {x.value.id for t in ast.walk(fn.node) if isinstance(t, (ast.If, ast.While, ast.IfExp)) for x in ast.walk(t.test)
+        if not any(isinstance(x, ast.Attribute) and x.attr == "deleted" for x in ast.walk(fn.node)):
+            continue
+        ld = LocalDefs(fn.node)
+        tested = {x.value.id for t in ast.walk(fn.node) if isinstance(t, (ast.If, ast.While, ast.IfExp)) for x in ast.walk(expand_test(ld, t.test))
                   if isinstance(x, ast.Attribute) and x.attr == "deleted" and isinstance(x.value, ast.Name)}
         if not tested:
             continue
-        ld = LocalDefs(fn.node)
         for nm in sorted(tested):
             vals = [v for v, i in ld.all_values(nm) if v is not None and i is None]
             kinds = [(_lookup_includes_deleted(ix, fn, v), v) for v in vals]
@@ -734,7 +736,8 @@ def r17_7(ctx: Ctx) -> None:
                        " never yields a deleted item, yet the function branches on its `.deleted` flag: the branch for a deleted item is dead"))
     ctx.floor("R17.7", "look-up results whose deleted flag is tested", n, 1)
     rb = ix.method("DatabaseService.restore_backup")
-    has = any(isinstance(x, ast.Attribute) and x.attr == "deleted" for t in ast.walk(rb.node) if isinstance(t, ast.If) for x in ast.walk(t.test))
+    has = any(isinstance(x, ast.Attribute) and x.attr == "deleted" for t in ast.walk(rb.node) if isinstance(t, ast.If)
+              for x in ast.walk(expand_test(LocalDefs(rb.node), t.test)))
     ctx.record("R17.7", ctx.key(rb, "restore distinguishes a deleted database file"), rb.loc(), has,
                "restore_backup branches on the file's deleted flag" if has else "restore_backup no longer handles a deleted database file")
 
